@@ -72,7 +72,9 @@ type Op struct {
 	WGDep bool `json:"wg_dep,omitempty"`
 	// Intra: lds exchange partner stays inside the item's own wavefront (rotation by Imm mod 64)
 	Intra bool `json:"intra,omitempty"`
-	// N: sload: number of dwords (1, 2, 4, 8)
+	// N: sload: number of dwords (1, 2, 4, 8); load: 0/1 = one dword, 2 or 4 = a dwordx2/x4 load of
+	// consecutive dwords starting at element (A & (len/2-1)) + Imm (Imm in 0..3, so the access is only
+	// dword-aligned and may cross a cache line), XOR-ed together
 	N int `json:"n,omitempty"`
 }
 
@@ -309,6 +311,12 @@ func (p *Program) Validate() error {
 			err = ref(o.A)
 			if o.K < 0 || o.K > 1 {
 				err = fmt.Errorf("bad buffer")
+			}
+			if o.N != 0 && o.N != 1 && o.N != 2 && o.N != 4 {
+				err = fmt.Errorf("bad load width")
+			}
+			if o.N > 1 && o.Imm > 3 {
+				err = fmt.Errorf("bad wide-load offset")
 			}
 		case "sload":
 			if o.K < 0 || o.K > 1 {
